@@ -39,6 +39,11 @@ def run(ctx):
     # subscriber that unsubscribes while being notified cannot make the next one miss a STOP / END_REPLICATION (shared rule with C08)
     from . import c08
     c08.r81(ctx)
+    # run-state guards and admission tests compare clock values: on a Duration clock these are the quantity comparisons (shared rule with
+    # C01 / C02 / C03 / C16): a comparison that answers True for a NaN operand disables every `if not x >= y: raise` refusal
+    from . import c16
+    ctx.uses('units')
+    c16.r166(ctx, None)
     # time-changed notifications are non-decreasing only if the event list hands out the pending minimum, also after a cancellation
     # (heap discipline and observers: shared rules with C01)
     # the warm-up notification "at the warm-up time", the refusal "warm-up before start" and the replication end come from the replication's
